@@ -70,7 +70,9 @@ func downEq(r2, r3 vm.Reply) bool {
 		}
 		return (r2.K == vm.KBulk || r2.K == vm.KStatus) && r2.S == txt
 	case vm.KDouble:
-		return (r2.K == vm.KBulk || r2.K == vm.KStatus) && numEq(r2.S, r3.F)
+		// "double to string": the string is the text of the double, not merely a text with the same
+		// numeric value (2.5e+06 for ,2500000 is a different reply to a client that compares strings)
+		return (r2.K == vm.KBulk || r2.K == vm.KStatus) && numEq(r2.S, r3.F) && r2.S == r3.S
 	case vm.KBigNum:
 		return (r2.K == vm.KBulk || r2.K == vm.KStatus) && r2.S == r3.S
 	case vm.KBool:
@@ -216,6 +218,9 @@ func c15Corpus(tier string) (states [][]Op, cmds [][]Op) {
 		{"LCS", "ks", "kd"}, {"LCS", "ks", "kd", "LEN"}, {"LCS", "ks", "kd", "IDX"}, {"LCS", "ks", "kd", "IDX", "WITHMATCHLEN"}, {"LCS", "ks", "kd", "IDX", "MINMATCHLEN", "3"},
 		{"HRANDFIELD", "kh", "2", "WITHVALUES"}, {"HRANDFIELD", "kh", "-4", "WITHVALUES"}, {"HRANDFIELD", "kh", "10"}, {"HRANDFIELD", "kn", "2", "WITHVALUES"}, {"HINCRBYFLOAT", "kh", "f", "0.25"}, {"INCRBYFLOAT", "ks2", "2.5"},
 		{"SMISMEMBER", "kz", "m", "zz"}, {"SINTERCARD", "1", "kz"}, {"OBJECT", "ENCODING", "ks"}, {"NOSUCHCOMMAND", "a", "b"}, {"GET"}, {"SCAN", "0"}, {"HSCAN", "kh", "0"}, {"SSCAN", "kz", "0"}, {"TYPE", "kh"}, {"EXPIRETIME", "ks"}, {"QUIT"},
+		// doubles across the magnitudes where text conversions change notation
+		{"HINCRBYFLOAT", "kh", "f", "2500000"}, {"HINCRBYFLOAT", "kh", "f", "1e15"}, {"HINCRBYFLOAT", "kh", "f", "1e17"}, {"HINCRBYFLOAT", "kh", "f", "1e21"}, {"HINCRBYFLOAT", "kh", "f", "0.00001"}, {"HINCRBYFLOAT", "kh", "f", "-0.0000001"}, {"HINCRBYFLOAT", "kh", "new", "3"},
+		{"HINCRBYFLOAT", "kh", "f", "-1.5"}, {"HINCRBYFLOAT", "kh", "h", "-10"}, {"INCRBYFLOAT", "ks2", "2500000"}, {"INCRBYFLOAT", "ks2", "1e17"}, {"INCRBYFLOAT", "ks2", "0.00001"}, {"INCRBYFLOAT", "ks2", "-0"},
 		{"SORT", "kl"}, {"SORT", "kl", "DESC"}, {"DBSIZE"}, {"SELECT", "3"}, {"WATCH", "ks"}, {"UNWATCH"}, {"DISCARD"}, {"EXEC"}, {"BITFIELD", "ks", "GET", "u8", "0", "INCRBY", "u8", "8", "1"}, {"BITFIELD", "ks", "OVERFLOW", "FAIL", "INCRBY", "u2", "0", "3"},
 	}
 	for _, a := range extra {
